@@ -36,6 +36,9 @@ pub fn storage_config() -> StorageConfig {
     StorageConfig { provider: CloudProvider::Memory, container: "verif".into(), tenant_id: "t".into() }
 }
 
+/// WAL segment limit of the execution being explored (and of the boots of its images); set per execution.
+static SEGMENT_LIMIT: std::sync::atomic::AtomicUsize = std::sync::atomic::AtomicUsize::new(700);
+
 pub fn ingester_config(wal_dir: &str, flush_rows: usize, interval_ms: u64) -> IngesterConfig {
     IngesterConfig {
         flush_interval: Duration::from_millis(interval_ms),
@@ -47,7 +50,8 @@ pub fn ingester_config(wal_dir: &str, flush_rows: usize, interval_ms: u64) -> In
         max_buffer_size_bytes: 1 << 30,
         wal: WalConfig {
             wal_dir: PathBuf::from(wal_dir),
-            max_segment_size: 700, // small: rotations and segment-granular truncation are exercised
+            // mostly small: rotations and segment-granular truncation are exercised
+            max_segment_size: SEGMENT_LIMIT.load(std::sync::atomic::Ordering::Relaxed),
             sync_mode: WalSyncMode::EveryWrite,
             enabled: true,
         },
@@ -75,6 +79,8 @@ struct Plan {
     /// the shards the writes map to are in the dual-write phase of a split: writes take
     /// Ingester::write_with_split_awareness
     dual_write: bool,
+    /// WAL segment limit (1 = every entry in a segment of its own, 1 MiB = never rotates here)
+    seg: usize,
     /// (from, count): a burst of lost compare-and-swap races on catalog.json (object-store backend)
     contention: Option<(u64, u64)>,
 }
@@ -125,11 +131,13 @@ fn gen_plan(rng: &mut Rng, idx: u64, thorough_fault: Option<(u64, FaultMode)>) -
         _ => Strategy::Pct { change_points: (0..3).map(|_| rng.below(80)).collect() },
     };
     let local_backend = rng.chance(1, 4);
-    let flush_rows = 3 + rng.usize(6);
+    // (now and then the degenerate threshold: every write is a flush)
+    let flush_rows = if rng.chance(1, 10) { rng.usize(2) } else { 3 + rng.usize(6) };
     let dual_write = rng.chance(1, 4);
     // 5 lost races in a row exhaust register_chunk's retry budget (Error::TooManyRetries reaches the flush)
     let contention = if rng.chance(1, 4) { Some((rng.below(3), *rng.pick(&[2u64, 5, 5, 6, 11]))) } else { None };
-    Plan { local_backend, writers, flush_rows, faults, strategy, dual_write, contention }
+    let seg = *rng.pick(&[1usize, 300, 700, 700, 700, 1 << 20]);
+    Plan { local_backend, writers, flush_rows, faults, strategy, dual_write, seg, contention }
 }
 
 fn snapshot_wal(wal_dir: &str, root: &str, n: &mut u64) -> String {
@@ -346,6 +354,7 @@ pub fn run(ctx: &Ctx) -> Outcome {
 fn one_execution(ctx: &Ctx, out: &mut Outcome, plan: Plan, mut rng: Rng, idx: u64, tag: &str, root: &str) -> u64 {
     let exec_root = format!("{}/e{}-{}", root, idx, tag);
     std::fs::create_dir_all(&exec_root).unwrap();
+    SEGMENT_LIMIT.store(plan.seg, std::sync::atomic::Ordering::Relaxed);
     let wal_dir = format!("{}/wal", exec_root);
     std::fs::create_dir_all(&wal_dir).unwrap();
     let plan2 = plan.clone();
@@ -507,6 +516,7 @@ fn one_execution(ctx: &Ctx, out: &mut Outcome, plan: Plan, mut rng: Rng, idx: u6
         "backend": if plan.local_backend { "local" } else { "object-store" },
         "flush_row_count": plan.flush_rows,
         "dual_write": plan.dual_write,
+        "wal_segment_limit": plan.seg,
         "lost_cas_races_on_catalog": plan.contention.map(|(f, c)| format!("conditional PUTs #{}..#{}", f, f + c)),
         "writers": plan.writers.iter().map(|w| w.iter().map(|(k, r, t)| format!("{:?} ids {:?} after {}ms", k, r.iter().map(|x| x.id).collect::<Vec<_>>(), t)).collect::<Vec<_>>()).collect::<Vec<_>>(),
         "faults": plan.faults.iter().map(|f| format!("request #{} {:?}", f.index, f.mode)).collect::<Vec<_>>(),
@@ -587,7 +597,7 @@ fn torn_variant(img: &Image, rng: &mut Rng, root: &str, counter: &mut u64, i: us
     let rt = tokio::runtime::Builder::new_current_thread().enable_all().build().ok()?;
     let d2 = d.clone();
     let ok = rt.block_on(async move {
-        let cfg = WalConfig { wal_dir: PathBuf::from(&d2), max_segment_size: 700, sync_mode: WalSyncMode::EveryWrite, enabled: true };
+        let cfg = WalConfig { wal_dir: PathBuf::from(&d2), max_segment_size: SEGMENT_LIMIT.load(std::sync::atomic::Ordering::Relaxed), sync_mode: WalSyncMode::EveryWrite, enabled: true };
         let mut w = WriteAheadLog::open(cfg).await.ok()?;
         let b = rows::make_batch(SchemaKind::A, &[RowSpec { id: -1 - i as i64, ts: 1, metric: "torn".into(), host: None, value: 0.0 }]);
         w.append(&b).await.ok()
